@@ -65,6 +65,9 @@ type udpSock struct {
 	closed    bool
 	rch       chan func()
 	rch2      chan func() // a second reader goroutine
+	conn      bool        // currently connected ...
+	cpeer     int         // ... to this peer (index into udpPeers4/6)
+	cport     uint16      // ... and port
 	reads     int
 }
 
@@ -125,6 +128,9 @@ func (w *udpWorld) open(kind, pi int) {
 		w.Fail("socket-setup-failed", "", "opening a UDP socket of kind %d on port %d failed: %v", kind, port, e)
 		return
 	}
+	if kind == 3 || kind == 4 {
+		s.conn, s.cpeer, s.cport = true, 0, 9000
+	}
 	if pi%2 == 1 {
 		// receive timestamps: Read then consults the clock after releasing its lock
 		ep.SetSockOpt(tcpip.TimestampOption(1))
@@ -143,6 +149,9 @@ func (w *udpWorld) arrive(si, n, srcSel, flags int, wait bool) {
 		return
 	}
 	v6 := s.kind == 4 || (s.kind == 2 && flags&1 != 0)
+	if s.kind == 2 && s.conn {
+		v6 = true // connected to an IPv6 peer
+	}
 	var src, dst tcpip.Address
 	sport := uint16(9000 + (srcSel>>1)%2)
 	if v6 {
@@ -150,12 +159,12 @@ func (w *udpWorld) arrive(si, n, srcSel, flags int, wait bool) {
 	} else {
 		src, dst = udpPeers4[srcSel%2], A4
 	}
-	if s.kind == 3 || s.kind == 4 { // connected: only its peer reaches it
-		sport = 9000
+	if s.conn { // connected: only its peer reaches it
+		sport = s.cport
 		if v6 {
-			src = udpPeers6[0]
+			src = udpPeers6[s.cpeer]
 		} else {
-			src = udpPeers4[0]
+			src = udpPeers4[s.cpeer]
 		}
 	}
 	w.narr++
@@ -307,7 +316,7 @@ func (w *udpWorld) write(si, n, dstSel int) {
 	v6 := s.kind == 2 || s.kind == 4
 	var dst tcpip.Address
 	dport := uint16(9000 + dstSel%2)
-	connected := s.kind == 3 || s.kind == 4
+	connected := s.conn
 	if !connected {
 		if v6 {
 			dst = udpPeers6[dstSel%2]
@@ -319,11 +328,11 @@ func (w *udpWorld) write(si, n, dstSel int) {
 		}
 		opts.To = &tcpip.FullAddress{Addr: dst, Port: dport}
 	} else {
-		dport = 9000
+		dport = s.cport
 		if v6 {
-			dst = udpPeers6[0]
+			dst = udpPeers6[s.cpeer]
 		} else {
-			dst = udpPeers4[0]
+			dst = udpPeers4[s.cpeer]
 		}
 		if dstSel&4 != 0 {
 			// sendto on a connected socket: the datagram goes where this call says, not to the connected peer
@@ -381,7 +390,7 @@ func (w *udpWorld) write(si, n, dstSel int) {
 }
 
 func (w *udpWorld) apply(s Step) {
-	if s.Op == "read" || s.Op == "drain" || s.Op == "shutr" || s.Op == "close" || s.Op == "write" || s.Op == "open" {
+	if s.Op == "read" || s.Op == "drain" || s.Op == "shutr" || s.Op == "close" || s.Op == "write" || s.Op == "open" || s.Op == "connect" {
 		// the simulator's own socket calls are ordered after everything posted so
 		// far (posted reads, arrivals still in the receive goroutine's inbox)
 		w.Settle()
@@ -444,6 +453,28 @@ func (w *udpWorld) apply(s Step) {
 		}
 	case "write":
 		w.write(s.A, int(s.D), s.B)
+	case "connect":
+		// (re)connect a bound or connected socket: what is already queued stays queued and keeps its sender
+		if s.A >= 0 && s.A < len(w.socks) {
+			sk := w.socks[s.A]
+			if sk.closed || sk.kind == 5 {
+				break
+			}
+			p, q := s.B%2, uint16(9000+(s.B>>1)%2)
+			to := tcpip.FullAddress{Addr: udpPeers4[p], Port: q}
+			if sk.kind == 2 || sk.kind == 4 {
+				to.Addr = udpPeers6[p]
+			}
+			if e := sk.ep.Connect(to); e == nil {
+				sk.conn, sk.cpeer, sk.cport = true, p, q
+				w.Probes["reconnects"]++
+			}
+			w.Settle()
+		}
+	case "linkfault":
+		// the device refuses the next frame(s): a write hitting it must fail, not pretend
+		w.S.Link.FailWrites = 1 + s.A%2
+		w.Probes["link_write_faults_armed"]++
 	case "tsopt":
 		// switch receive timestamps on/off: datagrams queued without one get it at Read time, outside the lock
 		if s.A >= 0 && s.A < len(w.socks) && !w.socks[s.A].closed {
@@ -471,7 +502,11 @@ func (w *udpWorld) next() Step {
 	if r.Chance(0.06) {
 		return Step{Op: "tsopt", A: si, B: r.Intn(2)}
 	}
-	switch r.Pick(10, 3, 2, 6, 2, 3, 1, 1, 2) {
+	switch r.Pick(10, 3, 2, 6, 2, 3, 1, 1, 2, 1, 1) {
+	case 9:
+		return Step{Op: "connect", A: si, B: r.Intn(4)}
+	case 10:
+		return Step{Op: "linkfault", A: r.Intn(2)}
 	case 0:
 		if w.YieldP > 0 && r.Chance(0.6) {
 			return Step{Op: "narrive", A: si, B: r.Intn(4), C: r.Intn(16), D: int64(udpLen(r))}
